@@ -83,7 +83,7 @@ func history(rng *rand.Rand, out *Out, steps int) {
 	}
 	nd := NewNode()
 	defer nd.Stop()
-	h := &hist{nd: nd, rng: rng, out: out, ids: NewIDs(), sc: NewScanner(nd), actors: Actors(), xcache: map[types.Hash]M{}}
+	h := &hist{nd: nd, rng: rng, out: out, ids: NewIDs(), sc: NewScanner(nd), actors: append(Actors(), g.Pillar4, g.Pillar5), xcache: map[types.Hash]M{}}
 	for _, kp := range h.actors {
 		h.users = append(h.users, kp.Address)
 	}
@@ -843,7 +843,7 @@ func rewardHistory(rng *rand.Rand, out *Out) {
 	}
 	nd := NewNodeEpoch(600 * time.Second)
 	defer nd.Stop()
-	h := &hist{nd: nd, rng: rng, out: out, ids: NewIDs(), sc: NewScanner(nd), actors: Actors(), xcache: map[types.Hash]M{}, quiet: true}
+	h := &hist{nd: nd, rng: rng, out: out, ids: NewIDs(), sc: NewScanner(nd), actors: append(Actors(), g.Pillar4, g.Pillar5), xcache: map[types.Hash]M{}, quiet: true}
 	for _, kp := range h.actors {
 		h.users = append(h.users, kp.Address)
 	}
